@@ -332,12 +332,37 @@ Proof.
   rewrite Forall_forall in *. intros y Hy. apply in_map_iff in Hy. destruct Hy as [x [<- Hx]]. auto.
 Qed.
 
-(* what search returns, as a list of candidates, before the row ids are looked up *)
+(* facts about the final filter_map (unreadable candidates are dropped) *)
+Lemma result_of_in : forall s out r d, In (r, d) (flat_map (result_of s) out) <->
+  exists x nd, In x out /\ read_node s (cid x) = Some nd /\ r = n_row nd /\ d = cd x.
+Proof.
+  intros s out r d. rewrite in_flat_map. split.
+  - intros (x & Hx & Hin). unfold result_of in Hin. destruct (read_node s (cid x)) as [nd|] eqn:E; [|destruct Hin].
+    destruct Hin as [Heq|[]]. inversion Heq; subst. exists x, nd. auto.
+  - intros (x & nd & Hx & Hr & -> & ->). exists x. split; auto. unfold result_of. rewrite Hr. left; auto.
+Qed.
+
+Lemma result_of_length : forall s out, (length (flat_map (result_of s) out) <= length out)%nat.
+Proof.
+  intros s out. induction out as [|x t IH]; cbn [flat_map length]; auto.
+  rewrite app_length. unfold result_of at 1. destruct (read_node s (cid x)); cbn [length]; lia.
+Qed.
+
+Lemma result_of_sorted : forall s out, asc out -> res_asc (flat_map (result_of s) out).
+Proof.
+  intros s out H. induction H as [|x t Hs IH Hx]; cbn [flat_map]; [constructor|].
+  unfold result_of at 1. destruct (read_node s (cid x)) as [nd|]; cbn [app]; auto.
+  constructor; auto. apply Forall_forall. intros [r d] Hin.
+  apply result_of_in in Hin. destruct Hin as (y & ny & Hy & _ & _ & ->). cbn [snd].
+  rewrite Forall_forall in Hx. apply Hx; auto.
+Qed.
+
+(* what search returns, as a list of candidates, before unreadable ones are dropped *)
 Lemma search_shape : forall p getv s q k ef l,
   search p getv s q k ef = SOk l -> 0 <= k ->
   l = [] \/
   exists out : list cand,
-    l = map (fun c => (row_of s (cid c), cd c)) out /\
+    l = flat_map (result_of s) out /\
     Z.of_nat (length out) <= k /\ asc out /\ NoDup (map cid out) /\
     (forall x, In x out -> cd x = cd_search s getv q (cid x)).
 Proof.
@@ -362,14 +387,11 @@ Proof.
   intros p getv s q k ef l Hs Hk.
   destruct (search_shape _ _ _ _ _ _ _ Hs Hk) as [->|(out & -> & H1 & H2 & H3 & H4)].
   - cbn. split; [lia|]. split; [constructor|]. intros r z [].
-  - rewrite map_length. split; [exact H1|]. split.
-    + eapply sorted_map; [|exact H2]. intros a b Hab. exact Hab.
-    + intros r z Hin. apply in_map_iff in Hin. destruct Hin as [x [Hx Hxin]].
-      injection Hx as Hr Hz. subst r.
-      pose proof (H4 x Hxin) as Hc. rewrite Hz in Hc. unfold cd_search in Hc. unfold row_of.
-      destruct (read_node s (cid x)) as [nd|]; [|discriminate].
-      destruct (getv (n_row nd)) as [v|] eqn:Ev; [|discriminate].
-      exists v. split; auto. inversion Hc; auto.
+  - split; [pose proof (result_of_length s out); lia|]. split; [apply result_of_sorted; exact H2|].
+    intros r z Hin. apply result_of_in in Hin. destruct Hin as (x & nd & Hxin & Hr & -> & Hz).
+    pose proof (H4 x Hxin) as Hc. rewrite <- Hz in Hc. unfold cd_search in Hc. rewrite Hr in Hc.
+    destruct (getv (n_row nd)) as [v|] eqn:Ev; [|discriminate].
+    exists v. split; auto. inversion Hc; auto.
 Qed.
 
 (* the same for the state reached by any history (the caller's table is what get_vector answers from) *)
